@@ -100,7 +100,10 @@ struct Runner : Exec<P, OFFSET>
       }
       r.ops++;
       model_apply(m, o);
-      if (!fail().set)
+      // The complete comparison runs after the history's last operation: every proper prefix is
+      // itself an enumerated history and was compared completely at its own end (a history that
+      // failed is never extended), and replay on fresh objects is deterministic.
+      if (!fail().set && (n + 1 == hist.size() || verbose))
         check_all();
       if (fail().set)
         break;
